@@ -213,7 +213,9 @@ class Docs:
         self.signac = signac
         self.project = sig.new_project(ctx, tag)
         self.path = self.project.path
-        self.P = [signac.Project(self.path) for _ in range(nh)]
+        # the handles name the project directory in different (equivalent) ways
+        spelt = [self.path, os.path.join(self.path, "workspace", ".."), self.path + os.sep + "." + os.sep]
+        self.P = [signac.Project(spelt[h % 3]) for h in range(nh)]
         self.ndocs, self.nh = ndocs, nh
         self.sps = [{"j": k} for k in range(ndocs)]
         self.is_project_doc = [k == 3 for k in range(ndocs)]
@@ -547,6 +549,9 @@ def run_buffered(ctx, case, multi_handle):
             key = "buffered-run-differs-from-unbuffered"
             if multi_handle:
                 key = "buffered-multi-handle-lost-update"
+                if any(b[0] == "raised" for b in bad):
+                    # the known lost-update mechanism is silent; an exception out of the block is something else
+                    key = "buffered-multi-handle-block-raises"
             ctx.violation(key, f"buffered regime '{regime}' leaves different documents than the unbuffered run",
                           {"regime": regime, "capacity": case.get("capacity"), "problems": bad[:4]})
             return
